@@ -16,6 +16,7 @@ import concurrent.futures
 import difflib
 import json
 import os
+import re
 import shutil
 import subprocess
 import uuid
@@ -694,6 +695,10 @@ def run(tier, seed):
     for (name, key), (s, cnt) in sorted(var_disagree.items()):
         gname, rule = key.split("|")[:2]
         site = "repetition-with-implicit-skip" if ("opt_noopt" in VARIANTS[name] and (gname, rule) in rep_skip_rules) else "other"
+        if site != "other" and _accepts_more(bins[BASELINE.get(name, "default")], bins[name], c18.key_to_op(key)):
+            # the recorded finding *gives back* a skip: at its call sites the option may consume less, never more. A variant
+            # that accepts what the baseline rejects, or consumes beyond the baseline, is something else (seeded change C20-o)
+            site = "other"
         g = vgroups.setdefault((name, site), {"count": 0, "first": (s, key), "keys": []})
         g["count"] += cnt
         g["keys"].append(key)
@@ -764,6 +769,31 @@ def run(tier, seed):
                      wall, len(new_violations))
     pool.shutdown()
     return 1 if new_violations else 0
+
+
+def _observe(binary, op):
+    p = subprocess.run([binary, "one", json.dumps(op), "--verbose"], stdout=subprocess.PIPE, stderr=subprocess.PIPE, env={})
+    for l in p.stdout.decode("utf-8", errors="replace").split("\n"):
+        if l.startswith("OBS "):
+            return json.loads(l.split(" ", 2)[2])
+    return None
+
+
+def _accepts_more(bin_default, bin_variant, op):
+    """True when the variant, on this single operation in a fresh process, succeeds where the baseline fails, consumes
+    further than the baseline, or has a token ending beyond every token of the baseline."""
+    a, b = _observe(bin_default, op), _observe(bin_variant, op)
+    if a is None or b is None:
+        return False
+    if b["ok"] and not a["ok"]:
+        return True
+    if not (a["ok"] and b["ok"]):
+        return False
+    if a.get("offset") is not None and b.get("offset") is not None and b["offset"] > a["offset"]:
+        return True
+    ends = lambda o: [int(x) for x in re.findall(r"end: (\d+)", o.get("tokens") or "")]
+    ea, eb = ends(a), ends(b)
+    return bool(ea and eb and max(eb) > max(ea))
 
 
 def _variant_op_differs(bin_default, bin_variant, op):
